@@ -32,3 +32,39 @@ def era_subsidy(eng, st, k):
     for j in range(len(tab) - 1, -1, -1):
         r = z3.If(kt == j, z3.IntVal(tab[j]), r)
     return V(r, INT)
+
+
+# ---- C01: what a verifying spend is ---------------------------------------------------------------------------------
+
+@GH.ghost('spend_verifies')
+def spend_verifies(eng, st, inp, prev_out, tx):
+    """the input carries a real signature object that the spent output's key accepts over the transaction's
+    signable form, i.e. over enc(signable(tx)) where signable keeps every reference and every output"""
+    import skepticoin.datatypes as d
+    import skepticoin.signing as sg
+    from pyvc.types import to_sort, opt_sort, BYTES_SORT
+    reg = eng.reg
+    Inp = reg.classes['Input']
+    Out = reg.classes['Output']
+    Sig = reg.classes['SECP256k1Signature']
+    TxS = to_sort(CLS('Transaction'), reg)
+    SigS = to_sort(CLS('Signature'), reg)
+    PkS = to_sort(CLS('PublicKey'), reg)
+    o = opt_sort(SigS)
+    sig_opt = Inp.acc['signature'](inp.t)
+    sig = o.val(sig_opt)
+    signable = eng.uf('signable', TxS, TxS)
+    enc = eng.uf('enc', TxS, BYTES_SORT)
+    ver = eng.uf('ecdsa_verifies', PkS, SigS, BYTES_SORT, z3.BoolSort())
+    pk = Out.acc['public_key'](prev_out.t)
+    return V(z3.And(o.is_some(sig_opt), Sig.recog(sig), ver(pk, sig, enc(signable(tx.t)))), BOOL)
+
+
+@GH.ghost('ecdsa')
+def ecdsa(eng, st, pk, sig, msg):
+    """the verification summary of SECP256k1PublicKey.validate as a predicate (A-ECDSA)"""
+    from pyvc.types import to_sort, BYTES_SORT
+    PkS = to_sort(CLS('PublicKey'), eng.reg)
+    SigS = to_sort(CLS('Signature'), eng.reg)
+    ver = eng.uf('ecdsa_verifies', PkS, SigS, BYTES_SORT, z3.BoolSort())
+    return V(ver(eng.term(pk, None, st), eng.term(sig, CLS('Signature'), st), eng.term(msg, BYTES, st)), BOOL)
